@@ -26,6 +26,9 @@ def _abstract_cups(interp, args, kwargs):
     ok = z3.Or(T.ty_eq(w.ty_adjoint(interp, left.t, 'r'), right.t), T.ty_eq(w.ty_adjoint(interp, right.t, 'r'), left.t))
     if not ex.branch(ok):
         raise PyRaise('AxiomError', 'are not adjoints')
+    reverse = kwargs.get('reverse', args[4] if len(args) > 4 else VBool(False))
+    if ex.branch(ex.truth(reverse)):
+        return _fresh_wf(interp, 'caps', T.EMPTY, T.ty_concat(left.t, right.t))
     return _fresh_wf(interp, 'cups', T.ty_concat(left.t, right.t), T.EMPTY)
 
 
@@ -224,21 +227,54 @@ for _q in ('fa', 'ba', 'fc', 'bc', 'fx', 'bx', 'curry'):
 
 # ---------------------------------------------------------------- class invariants of the biclosed rule boxes
 # assumed: monoidal.Box.__init__ stores name, dom and cod as given (its own body is the one-box diagram constructor)
-contract('monoidal.Box.__init__', is_init=True, spec='''
+def _p_box_init(ex):
+    dom, cod = ex.sym_ty('dom'), ex.sym_ty('cod')
+    ex._bi = (dom, cod)
+    return [VObject('monoidal.Box'), VStr('f'), dom, cod], {}
+
+
+def _e_box_init(interp, args, kwargs, obj):
+    ex = interp.ex
+    dom, cod = ex._bi
+    a = obj.attrs
+    ex.prove('C01:Box.dom stored', T.ty_eq(a['_dom'].t, dom.t))
+    ex.prove('C01:Box.cod stored', T.ty_eq(a['_cod'].t, cod.t))
+    boxes, offsets, layers = a['_boxes'], a['_offsets'], a['_layers']
+    ok = isinstance(boxes, VList) and boxes.is_literal() and len(boxes.items()) == 1 and boxes.items()[0] is obj
+    ex.prove('C01:a box is the diagram with itself as only box', z3.BoolVal(bool(ok)))
+    offs = offsets.items if isinstance(offsets, VTuple) else (offsets.items() if offsets.is_literal() else None)
+    ex.prove('C01:... at offset 0', offs[0].t == 0 if offs is not None and len(offs) == 1 else z3.BoolVal(False))
+    ls = layers.boxes.items() if layers.boxes.is_literal() else []
+    if len(ls) != 1:
+        ex.prove('C01:... with one layer', False)
+        return
+    l = ls[0]
+    ex.prove('C01:the layer has no wires left of the box', T.ty_eq(l.left.t, T.EMPTY))
+    ex.prove('C01:the layer has no wires right of the box', T.ty_eq(l.right.t, T.EMPTY))
+    ex.prove('C01:layers run from dom', T.ty_eq(layers.dom.t, dom.t))
+    ex.prove('C01:layers run to cod', T.ty_eq(layers.cod.t, cod.t))
+
+
+_BOX_SPEC = '''
 def spec(self, name, dom, cod, **params):
     self._name = name
     self._dom = dom
     self._cod = cod
-''', params=None)
+    self._boxes = [self]
+    self._offsets = [0]
+    self._layers = RawArrow(dom, cod, [RawLayer(dom[0:0], self, dom[0:0])])
+'''
+contract('monoidal.Box.__init__', is_init=True, params=_p_box_init, ensures=_e_box_init, property_ids=('C01',), spec=_BOX_SPEC)
 
 
-# assumed likewise: rigid.Box.__init__ (monoidal.Box.__init__ followed by the unchecked fast path of Diagram.__init__)
-contract('rigid.Box.__init__', is_init=True, spec='''
-def spec(self, name, dom, cod, **params):
-    self._name = name
-    self._dom = dom
-    self._cod = cod
-''', params=None)
+# rigid.Box.__init__: monoidal.Box.__init__ followed by the fast path of Diagram.__init__ on the same fields
+def _p_rbox_init(ex):
+    dom, cod = ex.sym_ty('dom'), ex.sym_ty('cod')
+    ex._bi = (dom, cod)
+    return [VObject('rigid.Box'), VStr('f'), dom, cod], {}
+
+
+contract('rigid.Box.__init__', is_init=True, params=_p_rbox_init, ensures=_e_box_init, property_ids=('C01',), spec=_BOX_SPEC)
 
 
 def _slash_ty(ex, name, which=None):
@@ -493,6 +529,17 @@ def _cupcap_init(kind):
         ex.prove('C01:%s.dom' % kind, T.ty_eq(obj.attrs['_dom'].t, both if kind == 'Cup' else T.EMPTY))
         ex.prove('C01:%s.cod' % kind, T.ty_eq(obj.attrs['_cod'].t, T.EMPTY if kind == 'Cup' else both))
 
+        def side():
+            # the call-site form of this constructor promises the same dom / cod (and accepts the same arguments)
+            try:
+                b = _make_cupcap(kind)(interp, [left, right], {})
+            except PyRaise as e:
+                ex.prove('call-site contract of %s accepts what the constructor accepts (raised %s)' % (kind, e.exc), False)
+                return
+            ex.prove('call-site contract of %s: dom' % kind, T.ty_eq(T.bdom(b.t), obj.attrs['_dom'].t))
+            ex.prove('call-site contract of %s: cod' % kind, T.ty_eq(T.bcod(b.t), obj.attrs['_cod'].t))
+        ex.side(side)
+
     def on_raise(interp, args, kwargs, exc):
         ex = interp.ex
         left, right = ex._cc
@@ -611,3 +658,36 @@ def _rigid_cupcap_branch(kind):
 
 _rigid_cupcap_branch('Cup')
 _rigid_cupcap_branch('Cap')
+
+
+# rigid.caps: one line over cups(..., reverse=True); verified against the same statement as its call-site contract
+def _p_caps(ex):
+    left, right = ex.sym_ty('left'), ex.sym_ty('right')
+    ex._caps = (left, right)
+    return [left, right], {}
+
+
+def _e_caps(interp, args, kwargs, result):
+    ex = interp.ex
+    left, right = ex._caps
+    result = interp.world.as_diagram(result)
+    ex.prove('C01:caps only for adjoint types', _adjoint_pair(interp, left, right))
+    ex.prove('C04:caps.dom', T.ty_eq(result.dom.t, T.EMPTY))
+    ex.prove('C04:caps.cod', T.ty_eq(result.cod.t, T.ty_concat(left.t, right.t)))
+    prove_wf(ex, 'C01:caps', result)
+
+
+def _r_caps(interp, args, kwargs, exc):
+    ex = interp.ex
+    left, right = ex._caps
+    ex.prove('C01:caps raise only AxiomError (raised %s)' % exc, z3.BoolVal(exc == 'AxiomError'))
+    ex.prove('C01:caps refuse only types that are not adjoint', z3.Not(_adjoint_pair(interp, left, right)))
+
+
+_prev_caps = CONTRACTS['rigid.caps'].abstract
+contract('rigid.caps', params=_p_caps, ensures=_e_caps, on_raise=_r_caps, property_ids=('C01', 'C04', 'C18'))
+CONTRACTS['rigid.caps'].abstract = _prev_caps
+
+
+for _q in ('rigid.cups', 'rigid.caps'):
+    _consistency(_q)
